@@ -689,7 +689,7 @@ Definition trk_load (o : trk_offs) (p : Z) (f : list Z) : res (trk_info * list t
 (* ------------------------------------------------------------------ file position *)
 (* The seek/tell discipline of the loaders.  The reads of the data loop are abstracted to
    "read to the end" (their effect on the position is overwritten by the final absolute
-   seek); everything else follows the code call by call. *)
+   seek in the `finally` clause); everything else follows the code call by call. *)
 
 (* TckFile._read_header: tell, seek(0), read magic, seek(1, CUR), lines, tell, seek(start, SET) *)
 Definition tck_header_fo (f : fobj) : res ((bool * Z) * fobj) :=
@@ -711,11 +711,15 @@ Definition tck_read_fo (b : Z) (hdr : bool * Z) (f : fobj) : res (list (list tri
   | Ok sl => Ok (sl, fo_seek_set start f2)
   end.
 
-(* LazyTractogram.from_data_func calls next(data_func()) once and drops the generator: _read
-   runs up to its first `yield` and never reaches its final seek, unless it finishes without
-   yielding (no streamline).  Some c: suspended after consuming c bytes of the data. *)
-Fixpoint tck_peek_loop (fuel : nat) (be : bool) (B : Z) (consumed : Z) (f : list Z)
-                       (cur : list triple) : res (option Z) :=
+(* A pass over the generator _read: run to exhaustion, or abandoned (the generator is dropped)
+   after its k-th item.  LazyTractogram.from_data_func does the latter with k = 1 inside
+   load(lazy_load=True).  Since commit c36353e5 the position is restored in a `finally`, which
+   also runs when a suspended generator is closed. *)
+Inductive pass := PComplete | PAbandon (k : nat).
+
+(* _read up to its k-th yield: errors of later buffers are never met *)
+Fixpoint tck_take_loop (fuel : nat) (be : bool) (B : Z) (k : nat) (f : list Z)
+                       (out : list (list triple)) (cur : list triple) : res (list (list triple)) :=
   match fuel with
   | O => Err EFuel
   | S fuel' =>
@@ -725,49 +729,45 @@ Fixpoint tck_peek_loop (fuel : nat) (be : bool) (B : Z) (consumed : Z) (f : list
     match chunk_check chunk with
     | Some e => Err e
     | None =>
-      let '(out', cur') := scan (triples_of be chunk) [] cur in
-      match out' with
-      | _ :: _ => Ok (Some (consumed + zlen chunk))
-      | [] => if eof then match tck_finish [] cur' with Ok _ => Ok None | Err e => Err e end
-              else tck_peek_loop fuel' be B (consumed + zlen chunk) rest cur'
-      end
+      let '(out', cur') := scan (triples_of be chunk) out cur in
+      if (k <=? length out')%nat then Ok (firstn k out')
+      else if eof then tck_finish out' cur'
+      else tck_take_loop fuel' be B k rest out' cur'
     end
   end.
 
-Definition tck_peek_fo (b : Z) (hdr : bool * Z) (f : fobj) : res fobj :=
+Definition tck_abandon_fo (b : Z) (hdr : bool * Z) (k : nat) (f : fobj)
+  : res (list (list triple) * fobj) :=
   let start := fo_tell f in
   if snd hdr <? 0 then Err ESeek else
   let f1 := fo_seek_set (snd hdr) f in
-  let d := dropz (fpos f1) (fbytes f1) in
-  match tck_peek_loop (S (length d)) (fst hdr) (tck_bufsize b) 0 d [] with
+  let '(d, f2) := fo_read (-1) f1 in
+  match tck_take_loop (S (length d)) (fst hdr) (tck_bufsize b) k d [] [] with
   | Err e => Err e
-  | Ok (Some c) => Ok (mkF (fpos f1 + c) (fbytes f))
-  | Ok None => Ok (fo_seek_set start (snd (fo_read (-1) f1)))
+  | Ok sl => Ok (sl, fo_seek_set start f2)       (* the finally clause *)
   end.
 
-Fixpoint iterate_fo {A} (n : nat) (step : fobj -> res (A * fobj)) (f : fobj) (acc : list A)
+Definition tck_pass (b : Z) (hdr : bool * Z) (p : pass) : fobj -> res (list (list triple) * fobj) :=
+  match p with PComplete => tck_read_fo b hdr | PAbandon k => tck_abandon_fo b hdr k end.
+
+Fixpoint run_passes {A} (steps : list (fobj -> res (A * fobj))) (f : fobj) (acc : list A)
   : res (list A * fobj) :=
-  match n with
-  | O => Ok (rev acc, f)
-  | S n' => match step f with
-            | Err e => Err e
-            | Ok (a, f') => iterate_fo n' step f' (a :: acc)
-            end
+  match steps with
+  | [] => Ok (rev acc, f)
+  | step :: r => match step f with
+                 | Err e => Err e
+                 | Ok (a, f') => run_passes r f' (a :: acc)
+                 end
   end.
 
-(* load (eager: one complete pass inside load; lazy: the peek of from_data_func) followed by
-   `iters` complete iterations over tractogram.streamlines when lazy *)
-Definition tck_session (b : Z) (lazy : bool) (iters : nat) (f : fobj)
+(* load (eager: one complete pass inside load; lazy: the abandoned first-item pass of
+   from_data_func) followed, when lazy, by the given passes over tractogram.streamlines *)
+Definition tck_session (b : Z) (lazy : bool) (passes : list pass) (f : fobj)
   : res (list (list (list triple)) * fobj) :=
   match tck_header_fo f with
   | Err e => Err e
   | Ok (hdr, f1) =>
-    if lazy then
-      match tck_peek_fo b hdr f1 with
-      | Err e => Err e
-      | Ok f2 => iterate_fo iters (tck_read_fo b hdr) f2 []
-      end
-    else iterate_fo 1%nat (tck_read_fo b hdr) f1 []
+    run_passes (map (tck_pass b hdr) (if lazy then PAbandon 1 :: passes else [PComplete])) f1 []
   end.
 
 (* TrkFile._read_header: tell; readinto(1000); tell -> _offset_data; seek(start, SET) *)
@@ -798,28 +798,39 @@ Definition trk_read_fo (hdr : trk_info * Z) (f : fobj) : res (list trk_stream * 
   | Ok sl => Ok (sl, fo_seek_set start f2)
   end.
 
-Definition trk_peek_fo (hdr : trk_info * Z) (f : fobj) : res fobj :=
+Fixpoint trk_take_loop (fuel : nat) (be : bool) (ncols nprop : Z) (nb : option Z) (kdone : Z)
+                       (want : nat) (f : list Z) (acc : list trk_stream) : res (list trk_stream) :=
+  match fuel with
+  | O => Err EFuel
+  | S fuel' =>
+    if (want <=? length acc)%nat then Ok (rev acc)
+    else match trk_step be ncols nprop nb kdone f with
+         | SDone => Ok (rev acc)
+         | SErr e => Err e
+         | SRec s _ rest => trk_take_loop fuel' be ncols nprop nb (kdone + 1) want rest (s :: acc)
+         end
+  end.
+
+Definition trk_abandon_fo (hdr : trk_info * Z) (k : nat) (f : fobj) : res (list trk_stream * fobj) :=
   let info := fst hdr in
   let start := fo_tell f in
   let f1 := fo_seek_set (snd hdr) f in
-  let d := dropz (fpos f1) (fbytes f1) in
+  let '(d, f2) := fo_read (-1) f1 in
   if (i_nscal info <? 0) || (i_nprop info <? 0) then Err ENegPts else
-  match trk_step (i_be info) (3 + i_nscal info) (i_nprop info)
-          (if i_count info =? 0 then None else Some (i_count info)) 0 d with
-  | SErr e => Err e
-  | SRec _ c _ => Ok (mkF (fpos f1 + c) (fbytes f))
-  | SDone => Ok (fo_seek_set start f1)
+  match trk_take_loop (S (S (length d))) (i_be info) (3 + i_nscal info) (i_nprop info)
+          (if i_count info =? 0 then None else Some (i_count info)) 0 k d [] with
+  | Err e => Err e
+  | Ok sl => Ok (sl, fo_seek_set start f2)       (* the finally clause *)
   end.
 
-Definition trk_session (o : trk_offs) (lazy : bool) (iters : nat) (f : fobj)
+Definition trk_pass (hdr : trk_info * Z) (p : pass) : fobj -> res (list trk_stream * fobj) :=
+  match p with PComplete => trk_read_fo hdr | PAbandon k => trk_abandon_fo hdr k end.
+
+Definition trk_session (o : trk_offs) (lazy : bool) (passes : list pass) (f : fobj)
   : res (list (list trk_stream) * fobj) :=
   match trk_header_fo o f with
   | Err e => Err e
   | Ok (hdr, f1) =>
-    if lazy then
-      match trk_peek_fo hdr f1 with
-      | Err e => Err e
-      | Ok f2 => iterate_fo iters (trk_read_fo hdr) f2 []
-      end
-    else iterate_fo 1 (trk_read_fo hdr) (snd (trk_size_fo f1)) []
+    if lazy then run_passes (map (trk_pass hdr) (PAbandon 1 :: passes)) f1 []
+    else run_passes [trk_read_fo hdr] (snd (trk_size_fo f1)) []
   end.
